@@ -200,7 +200,8 @@ theorem original_url_cases (u pfx : Bytes) :
     ((validateOriginalURL u pfx = u ∨ validateOriginalURL u pfx = u.take maxOriginalURLLen) ∧
       (pfx ≠ [] → startsWith pfx (validateOriginalURL u pfx) = true) ∧
       parseURL (validateOriginalURL u pfx) = some ⟨[], []⟩ ∧
-      (validateOriginalURL u pfx).length ≤ maxOriginalURLLen) := by
+      (validateOriginalURL u pfx).length ≤ maxOriginalURLLen ∧
+      SafeLocal (validateOriginalURL u pfx)) := by
   unfold validateOriginalURL
   generalize hu' : (if u.length > maxOriginalURLLen then u.take maxOriginalURLLen else u) = u'
   have hcases : (u' = u ∨ u' = u.take maxOriginalURLLen) ∧ u'.length ≤ maxOriginalURLLen := by
@@ -219,7 +220,11 @@ theorem original_url_cases (u pfx : Bytes) :
       split
       · exact Or.inl rfl
       · rename_i hpre
-        refine Or.inr ⟨hcases.1, ?_, ?_, hcases.2⟩
+        split
+        · exact Or.inl rfl
+        rename_i hss
+        have hss' : singleSlash u' = true := by simpa using hss
+        refine Or.inr ⟨hcases.1, ?_, ?_, hcases.2, singleSlash_safeLocal u' hss'⟩
         · intro hne
           by_cases hsw : startsWith pfx u' = true
           · exact hsw
@@ -237,22 +242,19 @@ theorem original_url_cases (u pfx : Bytes) :
           simp only at h1 h2
           rw [h1, h2]
 
-/-- **original_url_safe**: with a sane prefix (empty, or `/x…` with `x` not `/` or `\`), and —
-only when the prefix is empty — an input that is itself `/` or `/c…` (the page routes the
-handlers are mounted on: `r.URL.Path` is `/` there), the result is an origin-relative path under
-the prefix: it starts with the prefix, with `/`, and its second byte is neither `/` nor `\`. -/
-theorem original_url_safe (u pfx : Bytes) (hg : GoodPrefix pfx) (hu : pfx = [] → SafeLocal u) :
+/-- **original_url_safe** (full strength since the F27 fix): for EVERY input and every sane prefix
+(empty, or itself `/` or `/x…` with `x` not `/` or `\`), the result is an origin-relative path
+under the prefix: it starts with the prefix, with exactly one `/`, and its second byte is neither
+`/` nor `\`. Before the fix this needed the hypothesis that the input itself had that shape
+(`///evil`, `/\evil`, `\\evil` were kept under an empty prefix). -/
+theorem original_url_safe (u pfx : Bytes) (hg : GoodPrefix pfx) :
     SafeLocal (validateOriginalURL u pfx) ∧ startsWith pfx (validateOriginalURL u pfx) = true := by
-  rcases original_url_cases u pfx with h | ⟨hc, hpre, _, _⟩
+  rcases original_url_cases u pfx with h | ⟨_, hpre, _, _, hsafe⟩
   · rw [h]; exact fallback_safe pfx hg
-  · rcases hg with hp | hp
-    · subst hp
-      refine ⟨?_, by simp [startsWith]⟩
-      rcases hc with hc | hc
-      · rw [hc]; exact hu rfl
-      · rw [hc]; exact safeLocal_take u _ (by decide) (hu rfl)
-    · have hne : pfx ≠ [] := by intro e; rw [e] at hp; exact absurd hp.2 (by decide)
-      exact ⟨safeLocal_of_prefix pfx _ hp.1 hp.2 (hpre hne), hpre hne⟩
+  · refine ⟨hsafe, ?_⟩
+    by_cases hp : pfx = []
+    · subst hp; simp [startsWith]
+    · exact hpre hp
 
 -- non-vacuity (byte lists are the UTF-8 of the quoted text): an allowlisted URL with userinfo and
 -- port is accepted, look-alikes are not; prefix check and host check of the original URL both bite
@@ -432,7 +434,7 @@ theorem loginOriginal_safe (rawQuery : Bytes) : SafeLocal (loginOriginal [cSlash
 fresh verifier and state, a return URL that is empty or `AllowedReturn`, and an original URL that
 is an origin-relative path under the prefix; all four fields fit the uint16 length prefix. -/
 theorem login_packs_validated (cfg : Cfg) (hg : GoodPrefix cfg.pfx) (hpl : cfg.pfx.length < 65536)
-    (path rawQuery rtParam verifier st : Bytes) (hpath : cfg.pfx = [] → path = [cSlash])
+    (path rawQuery rtParam verifier st : Bytes)
     (hv : verifier.length < 65536) (hs : st.length < 65536) :
     let f := loginFields cfg path rawQuery rtParam verifier st
     f.verifier = verifier ∧ f.state = st ∧
@@ -443,8 +445,7 @@ theorem login_packs_validated (cfg : Cfg) (hg : GoodPrefix cfg.pfx) (hpl : cfg.p
   intro f
   have hf : f = ⟨verifier, st, validateOriginalURL (loginOriginal path rawQuery) cfg.pfx,
       validateReturnTo rtParam cfg.allow⟩ := rfl
-  have hsafe := original_url_safe (loginOriginal path rawQuery) cfg.pfx hg (by
-    intro hp; rw [hpath hp]; exact loginOriginal_safe rawQuery)
+  have hsafe := original_url_safe (loginOriginal path rawQuery) cfg.pfx hg
   have hlen := original_url_length (loginOriginal path rawQuery) cfg.pfx
   have hrl := return_to_length cfg.allow rtParam
   rw [hf]
@@ -465,7 +466,6 @@ is the state packed at login. -/
 theorem flow_redirect_safe (mac : Bytes → Bytes → Bytes) (hmac : ∀ k p, (mac k p).length = 32)
     (cfg : Cfg) (hg : GoodPrefix cfg.pfx) (hpl : cfg.pfx.length < 65536)
     (path rawQuery rtParam verifier st : Bytes) (t : Int)
-    (hpath : cfg.pfx = [] → path = [cSlash])
     (hv : verifier.length < 65536) (hs : st.length < 65536) (h0 : 0 ≤ t) (h1 : t < two63)
     (errParam code state : Bytes) (now : Int) (disc : Bool) (idp : Option Bytes) :
     match (callback mac cfg errParam code state
@@ -475,7 +475,7 @@ theorem flow_redirect_safe (mac : Bytes → Bytes → Bytes) (hmac : ∀ k p, (m
         AllowedReturn cfg.allow (validateReturnTo rtParam cfg.allow) ∧
         loc = withToken (validateReturnTo rtParam cfg.allow) tok
     | .sameOrigin loc a => idp = some a ∧ state = st ∧ SafeLocal loc ∧ startsWith cfg.pfx loc = true := by
-  have hl := login_packs_validated cfg hg hpl path rawQuery rtParam verifier st hpath hv hs
+  have hl := login_packs_validated cfg hg hpl path rawQuery rtParam verifier st hv hs
   simp only at hl
   obtain ⟨_, _, hrt, hso, hsp, _, _, hol, hrl⟩ := hl
   have hf : loginFields cfg path rawQuery rtParam verifier st =
@@ -522,7 +522,6 @@ theorem flow_redirect_safe (mac : Bytes → Bytes → Bytes) (hmac : ∀ k p, (m
     subst this
     simp only at hst hloc
     have := original_url_safe (validateOriginalURL (loginOriginal path rawQuery) cfg.pfx) cfg.pfx hg
-      (fun _ => hso)
     rw [hloc]
     exact ⟨hi, hst.symm, this.1, this.2⟩
 
